@@ -2015,7 +2015,9 @@ def r_hashkey(P, chk):
                 r = strip(x["c"][1])
                 ok = field_like(f, r)
                 lk = [key(y["c"][1]) for y in lens.get(line, [])]
-                same = not lk or any(k2 == "strlen(%s)" % key(r) for k2 in lk)
+                from .prog import resolve_key as _rk
+                rlk = [_rk(f, y["c"][1]) for y in lens.get(line, [])]      # `char * key = m->key; ... strlen(key)`
+                same = not lk or any(k2 == "strlen(%s)" % key(r) for k2 in lk) or any(k2 == "strlen(%s)" % _rk(f, r) for k2 in rlk)
                 chk.obligation(rid, "%s %s: hash key %s (length %s)" % (f.where(x), f.name, key(r), ",".join(lk)), ok=ok and same)
                 if not ok:
                     chk.violation(rid, "hashkey:%s:%s:%s" % (f.unit.base, f.name, key(r)), f.where(x),
